@@ -306,7 +306,7 @@ class URI(with_metaclass(URIType)):
 			return
 		username, password, host, port, quote = self.username, self.password, self.host, self.port, self.quote
 		if username:
-			yield quote(username, Percent.USERINFO)
+			yield quote(username, Percent.USERINFO.replace(b':', b''))
 			if password:
 				yield b':'
 				yield quote(password, Percent.USERINFO)
